@@ -172,6 +172,8 @@ def execute_here(plan, keep_events=False):
                     cl.node_call(data_dir, T, N, j, C,
                                  plan.get('delete_existing', False))
                     node_results[(0, j)] = 'returned'
+                except HarnessError:
+                    raise
                 except Exception as e:
                     node_results[(0, j)] = [type(e).__name__,
                                             sb.scrub(e)[:200]]
@@ -211,6 +213,8 @@ def execute_here(plan, keep_events=False):
                     elif t.exc == 'SimKill':
                         node_results[(rnd, j)] = 'killed'
                         killed.add(j)
+                    elif isinstance(t.exc, HarnessError):
+                        raise t.exc
                     else:
                         node_results[(rnd, j)] = [type(t.exc).__name__,
                                                   sb.scrub(t.exc)[:200]]
